@@ -211,16 +211,23 @@ func (fs *FileSink) open() error {
 		mode = defaultMode
 	}
 
-	if err := os.MkdirAll(fs.Path, dirMode); err != nil {
-		return err
-	}
-
 	createTime := time.Now()
 	// New file name as the format:
 	// file rotation enabled: filename-timestamp.extension
 	// file rotation disabled: filename.extension
 	newFileName := fs.newFileName(createTime)
 	newFilePath := filepath.Join(fs.Path, newFileName)
+
+	// The directory is created on demand: Path, and below it the directory
+	// part of a FileName such as app/audit.log.
+	if err := os.MkdirAll(fs.Path, dirMode); err != nil {
+		return err
+	}
+	if dir := filepath.Dir(newFilePath); dir != filepath.Clean(fs.Path) {
+		if err := os.MkdirAll(dir, dirMode); err != nil {
+			return err
+		}
+	}
 
 	var err error
 	fs.f, err = os.OpenFile(newFilePath, os.O_APPEND|os.O_WRONLY|os.O_CREATE, mode)
